@@ -261,3 +261,163 @@ Proof.
     { apply not_true_is_false. intros H. apply existsb_exists in H. destruct H as [s [Hs Hl]]. rewrite (Hno s Hs) in Hl. discriminate. }
     rewrite E. reflexivity.
 Qed.
+
+(* ================================================================== *)
+(* 4. ROIs                                                             *)
+(* ================================================================== *)
+Lemma has_roi_all d sp : wf_tm d -> has_roi d = true -> In sp (spots_of d) -> roi_okb sp = true.
+Proof.
+  intros W Hr Hsp. destruct (wf_roi d W) as [Hno|Hro]; [rewrite (has_roi_noroi d Hno) in Hr; discriminate|].
+  apply (forallb_In _ _ _ Hro Hsp).
+Qed.
+
+Lemma alookup_roi_final d sp : wf_tm d -> has_roi d = true -> In sp (spots_of d) ->
+  alookup "ROI_coords" (final_attrs d sp) = Some (VRoi (Some (roi_pts sp))).
+Proof.
+  intros W Hr Hsp. pose proof (forallb_In _ _ _ (wf_spots d W) Hsp) as Hok. destruct (spot_ok_parts _ _ Hok) as [_ [_ [_ [_ Hnc]]]].
+  assert (H0 : alookup "ROI_coords" (node_attrs_of (attrs_md d) (has_roi d) sp) = Some (VRoi (Some (roi_pts sp)))).
+  { unfold node_attrs_of. rewrite Hr, alookup_app, alookup_cattrs. apply ahas_false in Hnc. rewrite Hnc. reflexivity. }
+  unfold final_attrs. destruct (track_of d (spot_id sp)); [rewrite alookup_app, H0; reflexivity | exact H0].
+Qed.
+
+Theorem roi_column d ds dt : wf_tm d -> has_roi d = true -> kept_spots d ds dt <> [] ->
+  exists pv, alookup "ROI_coords" (nps_final d ds dt) = Some (mkprop pv None) /\
+    forall i sp, nth_error (kept_spots d ds dt) i = Some sp ->
+      exists n dd coords, xint "ROI_N_POINTS" (sp_attrs sp) = Some (Z.of_nat n) /\ sp_text sp = Some coords /\
+        length coords = (n * dd)%nat /\ pv_elem pv i = Some ([n; dd], coords).
+Proof.
+  intros W Hr Hne. rewrite (nps_final_nonempty d ds dt Hne). unfold nprops_of.
+  assert (Hhas : forall a, In a (nelts d ds dt) -> ahas "ROI_coords" a = true).
+  { intros a Ha. rewrite nelts_spots in Ha. apply in_map_iff in Ha. destruct Ha as [sp [<- Hsp]]. unfold ahas.
+    rewrite (alookup_roi_final d sp W Hr (kept_spot_in _ _ _ _ Hsp)). reflexivity. }
+  assert (Hin : In "ROI_coords" (keys_of (nelts d ds dt))).
+  { apply keys_of_In. destruct (kept_spots d ds dt) as [|sp0 r] eqn:E; [congruence|]. exists (final_attrs d sp0).
+    split; [rewrite nelts_spots, E; left; reflexivity|]. apply ahas_in. apply Hhas. rewrite nelts_spots, E. left; reflexivity. }
+  assert (Hk : nkind d "ROI_coords" = KR) by reflexivity.
+  pose proof (final_nodes_typed d ds dt W) as Hty. fold (nelts d ds dt) in Hty.
+  destruct (roi_col_kinds (nkind d) _ _ Hty Hin Hk) as [Hnv Hall].
+  destruct (roi_arr_spec _ Hnv Hall) as [pv [Hpv [Helem _]]]. rewrite col_values_length in Hpv.
+  exists pv. split.
+  - rewrite (alookup_tprops _ _ _ Hin). unfold tprop. rewrite Hk. unfold roi_pv. rewrite Hpv, (missing_none _ _ Hhas). reflexivity.
+  - intros i sp Hi. pose proof (kept_spot_in d ds dt sp (nth_error_In _ _ Hi)) as Hsp.
+    destruct (roi_ok_pts sp (has_roi_all d sp W Hr Hsp)) as [n [dd [coords [Hx [Ht [Hn [Hd [Hlen [Hl [Hall' Hc]]]]]]]]]].
+    exists n, dd, coords. repeat split; auto.
+    assert (Hv : nth_error (col_values "ROI_coords" (nelts d ds dt)) i = Some (VRoi (Some (roi_pts sp)))).
+    { unfold col_values. rewrite nth_error_map, nelts_spots, nth_error_map, Hi. cbn [option_map].
+      rewrite (alookup_roi_final d sp W Hr Hsp). reflexivity. }
+    destruct (Helem i (roi_pts sp) Hv) as [sh [Hre He]]. rewrite He.
+    rewrite (rect_uniform (roi_pts sp) dd) in Hre; [| intros E; rewrite E in Hl; cbn in Hl; lia | exact Hall'].
+    inversion Hre; subst sh. cbn [fst snd]. rewrite Hl, Hc. reflexivity.
+Qed.
+
+(* ================================================================== *)
+(* 5. Units and feature metadata                                       *)
+(* ================================================================== *)
+Lemma alookup_filter_keep {V} (p : string * V -> bool) l k v :
+  alookup k l = Some v -> p (k, v) = true -> NoDup (akeys l) -> alookup k (filter p l) = Some v.
+Proof.
+  induction l as [|[k' v'] r IH]; cbn; [discriminate|]. intros Hl Hp Hnd. inversion Hnd as [|? ? Hk' Hr]; subst.
+  destruct (String.eqb k k') eqn:E.
+  - apply String.eqb_eq in E. subst k'. inversion Hl; subst v'. rewrite Hp. cbn. rewrite String.eqb_refl. reflexivity.
+  - destruct (p (k', v')); [cbn; rewrite E|]; apply IH; assumption.
+Qed.
+
+Lemma alookup_fms sp ti ds dc : NoDup (map d_feat ds) -> In dc ds -> alookup (d_feat dc) (fms_of sp ti ds) = Some (fm_of sp ti dc).
+Proof.
+  intros Hnd Hin. apply alookup_in_nodup; [rewrite akeys_fms; exact Hnd|]. unfold fms_of. apply in_map_iff. exists dc. auto.
+Qed.
+
+Lemma alookup_aset_ne {V} k k' (v : V) l : k' <> k -> alookup k' (aset k v l) = alookup k' l.
+Proof. apply alookup_aset_other. Qed.
+
+Lemma akeys_aset_nodup {V} k (v : V) l : NoDup (akeys l) -> NoDup (akeys (aset k v l)).
+Proof.
+  induction l as [|[k' v'] r IH]; cbn; intros H; [repeat constructor; intros []|].
+  inversion H as [|? ? Hk Hr]; subst. destruct (String.eqb k k') eqn:E; cbn.
+  - apply String.eqb_eq in E. subst. constructor; assumption.
+  - constructor; [|apply IH; exact Hr]. intros Hin. apply akeys_aset_in in Hin. destruct Hin as [->|Hin]; [rewrite String.eqb_refl in E; discriminate | contradiction].
+Qed.
+
+Lemma nmd_full_nodup d : wf_tm d -> NoDup (akeys (nmd_full d)).
+Proof.
+  intros W. unfold nmd_full. destruct (has_roi d); [apply akeys_aset_nodup, akeys_aset_nodup|]; rewrite akeys_fms; exact (wf_sdecl_nodup d W).
+Qed.
+
+Lemma alookup_nmd_full d dc : wf_tm d -> In dc (sdecls d) ->
+  alookup (d_feat dc) (nmd_full d) = Some (fm_of (space_unit d) (time_unit d) dc).
+Proof.
+  intros W Hdc. destruct (decl_md d dc W (in_or_app _ _ _ (or_introl Hdc))) as [b [_ Hmd]].
+  assert (Hne : forall k, In k ["ID"; "ROI_N_POINTS"; "ROI_coords"] -> d_feat dc <> k).
+  { intros k Hk E. rewrite E, (wf_reserved d W k Hk) in Hmd. discriminate. }
+  unfold nmd_full. destruct (has_roi d).
+  - rewrite alookup_aset_ne, alookup_aset_ne; [apply alookup_fms; [exact (wf_sdecl_nodup d W) | exact Hdc] | |]; apply Hne; cbn; auto.
+  - apply alookup_fms; [exact (wf_sdecl_nodup d W) | exact Hdc].
+Qed.
+
+(* the metadata entry of a declared feature: dtype of what is stored, the unit TrackMate's dimension stands for under the
+   model's units, the declared name *)
+Definition feature_pm (d : tm) (dc : decl) (b : bool) : pmeta :=
+  let f := fm_of (space_unit d) (time_unit d) dc in
+  mkpm (if b then DI64 else DF64) false (option_map (fun u => stok (sapp "u:" u)) (fm_unit f)) (Some (stok (sapp "n:" (fm_name f)))) None.
+
+Lemma feat_prop_meta name b xs : name <> "" ->
+  create_props_metadata name (feat_prop b name xs) = Ok (new_pm (if b then DI64 else DF64) false).
+Proof.
+  intros Hn. unfold create_props_metadata, feat_prop, upcast_prop, upcast_arr. cbn [p_vals a_dt].
+  destruct b; cbn [dtype_eqb p_vals a_dt]; rewrite (seqb_neq _ _ Hn); reflexivity.
+Qed.
+
+Theorem spot_feature_metadata d ds dt md' dc b : wf_tm d ->
+  final_metadata (wgraph_final d ds dt) (md_final d ds dt) = Ok md' ->
+  In dc (sdecls d) -> d_isint dc = Some b ->
+  (exists sp, In sp (kept_spots d ds dt) /\ ahas (d_feat dc) (sp_attrs sp) = true) ->
+  alookup (d_feat dc) (md_nprops md') = Some (feature_pm d dc b).
+Proof.
+  intros W Hmd Hdc Hb Hex.
+  pose proof (spot_feature_column d ds dt dc b W Hdc Hb Hex) as Hcol.
+  destruct (props_entries _ _ _ _ _ (final_wf_input d ds dt W) Hmd) as [_ [_ [Hent _]]].
+  cbn [wgraph_final w_nids w_nprops] in Hent. rewrite backfill_final in Hent.
+  assert (Hne : d_feat dc <> "") by (apply (decl_feat_nonempty d dc W); apply in_or_app; left; exact Hdc).
+  rewrite (Hent _ _ _ (alookup_some_in _ _ _ Hcol) (feat_prop_meta _ b _ Hne)). f_equal.
+  unfold md_final, metadata_of. cbn [md_nprops]. rewrite alookup_map.
+  destruct Hex as [sp0 [Hsp0 Hh0]].
+  assert (Hkeep : existsb (fun a : attrs => ahas (d_feat dc) a) (nelts d ds dt) = true).
+  { apply existsb_exists. exists (final_attrs d sp0). split; [rewrite nelts_spots; apply in_map; exact Hsp0|].
+    pose proof (kept_spot_in d ds dt sp0 Hsp0) as Hin.
+    destruct (spot_ok_parts _ _ (forallb_In _ _ _ (wf_spots d W) Hin)) as [_ [_ [_ [Hnt0 Hnc0]]]].
+    unfold ahas. rewrite (alookup_final_attrs d sp0 _ W Hin).
+    - unfold ahas in Hh0. destruct (alookup (d_feat dc) (sp_attrs sp0)); [reflexivity | discriminate].
+    - intros E. rewrite E in Hh0. congruence.
+    - intros E. rewrite E in Hh0. congruence. }
+  unfold nmd_final, prune_md. rewrite (alookup_filter_keep _ _ _ _ (alookup_nmd_full d dc W Hdc)); [| exact Hkeep | exact (nmd_full_nodup d W)].
+  reflexivity.
+Qed.
+
+Theorem edge_feature_metadata d ds dt md' dc b : wf_tm d ->
+  final_metadata (wgraph_final d ds dt) (md_final d ds dt) = Ok md' ->
+  In dc (edecls d) -> d_isint dc = Some b ->
+  (exists e, In e (final_edges d ds dt) /\ ahas (d_feat dc) (link_attrs d e) = true) ->
+  alookup (d_feat dc) (md_eprops md') = Some (feature_pm d dc b).
+Proof.
+  intros W Hmd Hdc Hb Hex.
+  pose proof (edge_feature_column d ds dt dc b W Hdc Hb Hex) as Hcol.
+  destruct (props_entries _ _ _ _ _ (final_wf_input d ds dt W) Hmd) as [_ [_ [_ Hent]]].
+  cbn [wgraph_final w_eprops] in Hent.
+  assert (Hne : d_feat dc <> "") by (apply (decl_feat_nonempty d dc W); apply in_or_app; right; apply in_or_app; left; exact Hdc).
+  rewrite (Hent _ _ _ (alookup_some_in _ _ _ Hcol) (feat_prop_meta _ b _ Hne)). f_equal.
+  unfold md_final, metadata_of. cbn [md_eprops]. rewrite alookup_map.
+  destruct Hex as [e0 [He0 Hh0]].
+  assert (Hkeep : existsb (fun a : attrs => ahas (d_feat dc) a) (map snd (g_edges (final_graph d ds dt))) = true).
+  { apply existsb_exists. exists (cattrs (attrs_md d) (link_attrs d e0)). split; [|rewrite ahas_cattrs; exact Hh0].
+    unfold final_edges in He0. apply in_map_iff in He0. destruct He0 as [x [Hx1 Hx]].
+    assert (Hs : snd x = cattrs (attrs_md d) (link_attrs d e0)).
+    { pose proof (eouts_attrs d ds dt W) as Ha. unfold final_edges in Ha. rewrite map_map in Ha.
+      assert (Hp : forall l : list (edge * attrs), In x l -> map snd l = map (fun y => cattrs (attrs_md d) (link_attrs d (fst y))) l ->
+                   snd x = cattrs (attrs_md d) (link_attrs d (fst x))).
+      { induction l as [|y r IH]; intros Hy Hm; [destruct Hy|]. cbn in Hm. inversion Hm. destruct Hy as [->|Hy]; auto. }
+      rewrite <- Hx1. apply (Hp _ Hx Ha). }
+    rewrite <- Hs. apply in_map. apply (Permutation_in _ (eouts_perm d ds dt W) Hx). }
+  unfold emd_final, prune_md, emd_full.
+  rewrite (alookup_filter_keep _ _ _ _ (alookup_fms _ _ _ dc (wf_edecl_nodup d W) Hdc)); [| exact Hkeep | rewrite akeys_fms; exact (wf_edecl_nodup d W)].
+  reflexivity.
+Qed.
